@@ -28,6 +28,7 @@ func TestMain(m *testing.M) {
 		"source text is valid UTF-8 (the property's precondition)",
 		"triple-quoted bodies that contain or touch quote characters, raw NUL bytes and the empty back-quoted identifier get the weak oracle {rejected, exact value}: the reference does not define them",
 		"leading-zero decimals (017) are not generated: the reference documents plain decimal only")
+	impl.DisturbEvery = 3 // every third parse/load is preceded by a parse of an unrelated malformed text
 	code := m.Run()
 	evid.Flush(code == 0)
 	os.Exit(code)
@@ -294,7 +295,12 @@ func judgeString(t rk.Failer, slot, kind, src string, ex expect, ident bool, non
 }
 
 // singleLiteralToken: the source lexes to exactly three tokens (two for the literal and its partner, one operator) and nothing else.
-func singleLiteralToken(src string) bool {
+func singleLiteralToken(src string) (single bool) {
+	defer func() {
+		if recover() != nil {
+			single = false
+		}
+	}()
 	l := parser.Lex(src)
 	var it parser.Item
 	n := 0
